@@ -99,6 +99,36 @@ def construct(h, k, var):
     return "let %s = %s::v%d::T { %s };" % (var, h.name, k, ", ".join(parts))
 
 
+def value_expr(h, k):
+    """symbolic value expression of hN::vK::T"""
+    parts = []
+    for f in h.fields:
+        if f.added > k: continue
+        if f.removed is not None and f.removed <= k:
+            parts.append("%s: %s::new()" % (f.name, f.removed_kind))
+        else:
+            parts.append("%s: %s" % (f.name, any_expr(f.type_at(k))))
+    return "%s::v%d::T { %s }" % (h.name, k, ", ".join(parts))
+
+
+def field_asserts(h, i, j, x, y, tag):
+    out = []
+    for f in h.fields:
+        if f.added > j: continue
+        if f.removed is not None and f.removed <= j: continue
+        tj = f.type_at(j)
+        if f.exists_at(i):
+            exp = conv_expr(f, i, j, "%s.%s" % (x, f.name))
+            if exp.startswith("conv"): exp = "%s::%s" % (h.name, exp)
+            kind = "retained" if f.type_at(i) == tj else "converted"
+            out.append('assert!(%s, "C03: %s field `%s` differs after loading version-%d data into version %d (%s)");' % (eq_expr("%s.%s" % (y, f.name), exp, tj), kind, f.name, i, j, tag))
+        else:
+            de_ = f.default_expr(tj)
+            if f.default[0] == "fn": de_ = "%s::%s" % (h.name, de_)
+            out.append('assert!(%s, "C03: added field `%s` does not hold its declared default (%s)");' % (eq_expr("%s.%s" % (y, f.name), de_, tj), f.name, tag))
+    return out
+
+
 def conv_expr(f, from_ver, to_ver, expr):
     """value of field as seen by a version-to_ver program, given the value written at from_ver"""
     t_from, t_to = f.type_at(from_ver), f.type_at(to_ver)
@@ -232,6 +262,34 @@ def emit():
                 body.append('if p { assert!(std::mem::size_of::<%s::v%d::T>() == r.n, "C18: packed fast path allowed for a version whose wire size differs from the memory size"); }' % (h.name, n))
                 body += ["std::mem::forget(x); std::mem::forget(y);", 'kani::cover!(true, "reached end");']
                 c18["q" if h.tier == "q" else "t"].append("kproof!(%s_n%d_k%d, %d, {\n        %s\n    });" % (h.name, n, k, uw, "\n        ".join(body)))
+    # ---------------- nesting: the evolving type inside another struct and inside a Vec (C03)
+    for h in H:
+        if h.name not in ("h1", "h4", "h8", "h9"): continue
+        out.append("pub mod %s_nest {\n    use super::*;" % h.name)
+        for k in range(h.nver):
+            out.append("    pub mod v%d {\n    use super::*;\n    #[derive(Savefile)]\n    pub struct O { pub pre: u8, pub inner: %s::v%d::T, pub post: u16 }\n    #[derive(Savefile)]\n    pub struct OV { pub items: Vec<%s::v%d::T>, pub post: u16 }\n    }" % (k, h.name, k, h.name, k))
+        out.append("}")
+        for i in range(h.nver):
+            for j in range(i, h.nver):
+                if i == j and i != 0: continue
+                tier = "q" if (h.name in ("h1", "h8") and i == 0 and j == h.nver - 1) else "t"
+                body = ["set_len(1);", "let x = %s_nest::v%d::O { pre: kani::any(), inner: %s, post: kani::any() };" % (h.name, i, value_expr(h, i))]
+                body.append("let (buf, n) = ser::<%s_nest::v%d::O, 64>(&x, %d).unwrap();" % (h.name, i, i))
+                body.append("let (y, left) = de::<%s_nest::v%d::O>(&buf[..n], %d).unwrap();" % (h.name, j, i))
+                body.append('assert!(left == 0, "C03: nested: the version-%d reader did not consume exactly the version-%d data");' % (j, i))
+                body.append('assert!(y.pre == x.pre && y.post == x.post, "C03: neighbours of a nested evolving struct were disturbed");')
+                body += field_asserts(h, i, j, "x.inner", "y.inner", "nested in a struct")
+                body += ["std::mem::forget(x); std::mem::forget(y);", 'kani::cover!(true, "reached end");']
+                c03[tier].append("kproof!(%s_nest_w%d_r%d, 7, {\n        %s\n    });" % (h.name, i, j, "\n        ".join(body)))
+                body = ["set_len(1);", "let x = %s_nest::v%d::OV { items: vec![%s, %s], post: kani::any() };" % (h.name, i, value_expr(h, i), value_expr(h, i))]
+                body.append("let (buf, n) = ser::<%s_nest::v%d::OV, 96>(&x, %d).unwrap();" % (h.name, i, i))
+                body.append("let (y, left) = de::<%s_nest::v%d::OV>(&buf[..n], %d).unwrap();" % (h.name, j, i))
+                body.append('assert!(left == 0, "C03: in Vec: the version-%d reader did not consume exactly the version-%d data");' % (j, i))
+                body.append('assert!(y.items.len() == 2 && y.post == x.post, "C03: element count or neighbour of a Vec of evolving structs was disturbed");')
+                body += field_asserts(h, i, j, "x.items[0]", "y.items[0]", "first Vec element")
+                body += field_asserts(h, i, j, "x.items[1]", "y.items[1]", "second Vec element")
+                body += ["std::mem::forget(x); std::mem::forget(y);", 'kani::cover!(true, "reached end");']
+                c03[tier].append("kproof!(%s_vec_w%d_r%d, 7, {\n        %s\n    });" % (h.name, i, j, "\n        ".join(body)))
     # ---------------- enum histories
     for ent in ENUMS:
         (name, tier, note, variants, nver) = ent[:5]
